@@ -13,13 +13,26 @@ fs/stream.py (nothing is imported or run), are clauses whose failure necessarily
                        the file is tolerated, it rewrites identical bytes), and inside a part the source read offset equals the
                        destination offset of the byte being written (reader/writer agreement).  A refutation is reported with a
                        concrete size / part size.
+                       The part quantities must all come from ONE division of the size by the part size in force.  Where the code
+                       adjusts them on some path (a cap on the number of parts, a minimum / rounded part size: a test the case does
+                       not decide, a further division of the size) the execution forks (engines/absexec: explore): an undecided test is
+                       followed both ways under a recorded assumption; a division of the size by a new divisor starts a fresh
+                       decomposition size = q'*P' + rem' with its own six cases, and what was computed from the superseded division
+                       (a remainder, a part count, the old part size) stays expressed in the OLD unknowns - nothing but the link
+                       "same size" relates it to the fresh ones.  The coverage obligations are then proved on the normal forms exactly
+                       as before (a proof holds whatever the relation between the generations); an obligation that is not an identity
+                       because it mixes the generations (last part sized by the stale `rem`, parts enumerated by the stale count,
+                       offsets striding by the stale part size) is reported with a REALISABLE witness - the original unknowns are
+                       free, the later ones are computed from the links, the fork assumptions hold - and declined when none is found.
+                       Helper methods the arithmetic was extracted into are inlined first (engines/inline).
   R2 exact-length loops the counted loop of _copy_part (and of _ReadableStreamFromBlocking._readexactly it relies on) continues
                        iff bytes remain, asks for between 1 and `remaining` bytes (never across the part boundary), passes on the
                        very bytes read and decreases the counter by the number of bytes passed on; the read-until-EOF loop of
                        _copy_file passes on every non-empty chunk and leaves exactly on the empty one.
   R3 destination       the single-file path reads `srcfile` from its start and creates `destfile`; the multi-part path creates the
                        part creator for `destfile`, announces a part count that covers every part number it uses, hands that creator
-                       and `srcfile` to every part, and every exit of the function has copied; LocalAsyncFS opens sources 'rb' (seeking to `start` for
+                       and `srcfile` to every part, and every exit of the function has copied (no path returns, or raises an error of its own
+                       that is none of the documented ones, before anything was copied); LocalAsyncFS opens sources 'rb' (seeking to `start` for
                        ranged reads), creates destinations with a truncating binary mode, creates an empty file for a multi-part
                        copy and writes each part through a non-truncating 'r+b' handle positioned at the part's own offset;
                        LocalMultiPartCreate.__aexit__ removes the file only on failure and never suppresses the error.
@@ -60,11 +73,12 @@ META = dict(
     category='other',
     text='Partial claim. Necessary structural conditions of exact copying are decided exhaustively over finite abstractions: part coverage and '
          'reader/writer offset agreement by abstract execution over polynomial normal forms with a finite case split (identities proved on the '
-         'normal form, refutations by a concrete witness of the normal form), exact-length loop clauses by one abstract iteration per order case, '
+         'normal form, refutations by a concrete witness of the normal form; paths that adjust the part size / count are forked and the size re-divided, results of a '
+         'superseded division that reach the parts are refuted by realisable witnesses only), exact-length loop clauses by one abstract iteration per order case, '
          'the destination-rule decision table by predicate abstraction + path enumeration of the extracted methods with uninterpreted string '
          'constructors (every row of the atom valuation compared with the documented table), the barrier by must-pass-through on the CFG, error '
          'propagation by truth tables of the handlers.  Byte identity itself is a runtime round-trip property and is not claimed.',
-    note='Trusted: CPython ast; engines/polysign, absexec, pathabs; outcomes of statfile/listfiles/staturl are columns of the table; url_join, url_basename, '
+    note='Trusted: CPython ast; engines/polysign, absexec, pathabs, inline; outcomes of statfile/listfiles/staturl are columns of the table; url_join, url_basename, '
          'rstrip, slicing are uninterpreted; read() of a regular local file returns >= 1 byte before EOF; write() writes all bytes. '
          'Not decided: contents of reads/writes, OS open/seek semantics, cloud back ends, schedules, accounting, cleanup after failure.',
     technique='static analysis: abstract execution over polynomial normal forms with a finite case split; predicate abstraction + path enumeration '
@@ -122,7 +136,7 @@ def _copier_model(m: pf.Module) -> Callable:
         if attr == 'size' and not e.args and (_is_role(recv, 'srcstat') or (isinstance(recv, Op) and recv.kind == 'formal' and recv.name == 'srcstat')):
             return SIZE
         if attr == 'copy_part_size' and recv is not None:
-            return ex.env.get('<copy_part_size>', V('P'))   # the file system's answer: follows the renaming when the size is re-divided
+            return V('P')   # the file system's answer: the part size of the ORIGINAL decomposition, whatever the size is divided by later
         if name in RETRY and e.args:
             r = invoke(ex, e.args[0], e.args[1:], e.keywords, e)
             if r is not NotImplemented:
@@ -136,12 +150,19 @@ def _copier_model(m: pf.Module) -> Callable:
             if len(stars) != 1 or len(e.args) != 2:
                 raise AnalysisError(f'{ex.label}: `{pf.nsrc(e)[:90]}` is not bounded_gather2(sema, *[thunks])')
             comp = stars[0].value
+            comp_env = ex.env
+            if isinstance(comp, ast.Name) and isinstance(ex.env.get(comp.id), Op) and ex.env[comp.id].kind == 'comp':
+                comp, comp_env = ex.env[comp.id].node, ex.env[comp.id].env     # thunks = [partial(f, i) for i in range(n)]; gather(*thunks)
             ok = isinstance(comp, (ast.ListComp, ast.GeneratorExp)) and len(comp.generators) == 1 and not comp.generators[0].ifs \
                 and not comp.generators[0].is_async and isinstance(comp.generators[0].target, ast.Name)
             if not ok:
                 raise AnalysisError(f'{ex.label}: the thunks given to bounded_gather2 are not one comprehension over a range')
             gen = comp.generators[0]
-            rng = ex.ev(gen.iter)
+            live_env, ex.env = ex.env, comp_env
+            try:
+                rng = ex.ev(gen.iter)
+            finally:
+                ex.env = live_env
             if not (isinstance(rng, Op) and rng.kind == 'range' and isinstance(rng.lo, Poly) and rng.lo.is_zero() and isinstance(rng.hi, Poly)):
                 raise AnalysisError(f'{ex.label}: parts are not enumerated by range(<n>) but by `{pf.nsrc(gen.iter)}`')
             elt = comp.elt
@@ -149,7 +170,7 @@ def _copier_model(m: pf.Module) -> Callable:
                 and isinstance(elt.args[0], ast.Name) and isinstance(elt.args[1], ast.Name) and elt.args[1].id == gen.target.id
             if not ok:
                 raise AnalysisError(f'{ex.label}: thunk `{pf.nsrc(elt)}` is not functools.partial(<f>, <index>)')
-            clo = ex.env.get(elt.args[0].id)
+            clo = comp_env.get(elt.args[0].id)
             if not (isinstance(clo, Op) and clo.kind == 'closure'):
                 raise AnalysisError(f'{ex.label}: `{elt.args[0].id}` is not a local function')
             ex.events.append(Op('gather', N=rng.hi, closure=clo.node, env=dict(ex.env), withs=list(ex.withs), node=e, alt=ex.handler_depth))
@@ -159,16 +180,15 @@ def _copier_model(m: pf.Module) -> Callable:
 
 
 def _pt_text(ex: Exec, pt: Dict[str, int]) -> str:
-    size, P = ex.inst(SIZE).at(pt), ex.inst(V("P")).at(pt)
-    sg = [g for g in ex.gens if g.what == 'size']
-    if not sg and not ex.assumptions and not ex.gens:
-        return f'size={size}, part_size={P}'
+    size, P0, P = ex.inst(SIZE).at(pt), ex.inst(V('P')).at(pt), ex.inst(ex.cur(V('P'))).at(pt)
+    if not ex.assumptions and not ex.gens:
+        return f'size={size}, part_size={P0}'
     # the part size was adjusted / re-derived on this path: name the inputs (the file system's copy_part_size, the buffer size if it played a part)
-    txt = f'size={size}, copy_part_size={ex.inst(V("P@" + str(sg[0].k))).at(pt) if sg else P}'
+    txt = f'size={size}, copy_part_size={P0}'
     if any('B' in g.div.unknowns() for g in ex.gens) or any('B' in a.unknowns() + b.unknowns() for _, a, b, _, _ in ex.assumptions):
         txt += f', BUFFER_SIZE={ex.inst(V("B")).at(pt)}'
-    if sg:
-        txt += f', part size in force={P}'
+    if ex.current_generation() > 1:
+        txt += f', size last divided by {P}'
     return txt
 
 
@@ -320,7 +340,7 @@ def _untuple_helper_calls(m: pf.Module, cls: str, target: str) -> pf.Module:
 def _stale_vars(exi: Exec, env: Dict[str, Any], node: ast.AST) -> List[str]:
     """Variables the part function reads that still hold a result of a superseded division (their value carries tagged unknowns)."""
     used = {n.id for n in ast.walk(node) if isinstance(n, ast.Name)}
-    return sorted(nm for nm in used if isinstance(env.get(nm), Poly) and any('@' in u for u in env[nm].unknowns()))
+    return sorted(nm for nm in used if isinstance(env.get(nm), Poly) and exi.is_stale(env[nm]))
 
 
 def _analyse_main(ctx: Ctx, m: pf.Module, top_env: Dict[str, Any]) -> None:
@@ -340,12 +360,11 @@ def _analyse_main(ctx: Ctx, m: pf.Module, top_env: Dict[str, Any]) -> None:
             env = dict(top_env)
             env.update(consts)
             env['Copier.BUFFER_SIZE'] = V('B')
-            env['<copy_part_size>'] = V('P')
             sub = dict(csub)
             sub['B'] = ONE + V('b_')
             ex = Exec(m, fn, env, sub, f'{q} [{case}]')
             ex.call_model = _copier_model(m)
-            ex.divmod_of = (SIZE, V('P'), V('q'), V('rem'))
+            ex.divmod_of = ex.canonical_divmod = (SIZE, V('P'), V('q'), V('rem'))
             ex.rebase_cases = all_cases
             ex.keep = {'B', 'b_'}
             return ex
@@ -388,7 +407,7 @@ def _analyse_main(ctx: Ctx, m: pf.Module, top_env: Dict[str, Any]) -> None:
 
 
 def _real_point(ex: Exec, label: str) -> Dict[str, int]:
-    for pt in real_points(ex, set(ex.inst(SIZE).unknowns()) | set(ex.inst(V('P')).unknowns())):
+    for pt in real_points(ex, set(ex.inst(SIZE).unknowns()) | set(ex.inst(V('P')).unknowns()) | set(ex.inst(ex.cur(SIZE)).unknowns())):
         return pt
     raise Undecided(f'{label}: no input found that takes this path')
 
@@ -401,6 +420,16 @@ def _analyse_run(ctx: Ctx, m: pf.Module, fn: pf.FuncDef, ex: Exec, status: str, 
     live = [x for x in ex.events if not x.alt]
     singles = [x for x in live if x.kind == 'invoke' and x.method == '_copy_file']
     gathers = [x for x in live if x.kind == 'gather']
+    if status == 'raise':
+        # an exit by an exception of the function's own making, before anything was copied: only the documented errors may end a copy
+        rs = [x for x in ex.events if x.kind == 'raise']
+        exc = rs[-1].node.exc if rs and not rs[-1].alt else None
+        cls = pf.dotted(exc.func if isinstance(exc, ast.Call) else exc) if exc is not None else None
+        if cls is not None and cls.split('.')[-1] not in ERRORS and not singles and not gathers:
+            wit = _real_point(ex, label) if forked else {u: 0 for u in ('s_', 'r_', 'u_')}
+            _once(ctx, 'R3', f'{F}::{q}::every exit has copied', False, f'for {_pt_text(ex, wit)} ({case}) the function raises {cls.split(".")[-1]} (`{pf.nsrc(rs[-1].node)[:80]}`) without '
+                  'copying anything: the source exists and is a regular file, this is none of the documented errors', m.path, rs[-1].node.lineno)
+            return {'problems': [], 'facts': None}
     if status not in ('fall', 'return'):
         raise AnalysisError(f'{label}: abstract execution ends by `{status}`')
     if not singles and not gathers:
@@ -442,15 +471,25 @@ def _analyse_run(ctx: Ctx, m: pf.Module, fn: pf.FuncDef, ex: Exec, status: str, 
     und: List[str] = []   # obligations neither proved nor refuted: the run declines unless another obligation is refuted
     facts: Dict[str, Any] = {'path': 'multi-part', 'n_parts': repr(ex.inst(N))}
     part: Optional[_Part] = state['part']
+    csize = ex.cur(SIZE)   # the file size in the unknowns of the decomposition in force (the same number as SIZE)
 
     def stale(exi: Exec, *polys: Poly) -> str:
-        names = _stale_vars(exi, g.env, g.closure) + (['the number of parts'] if any('@' in u for u in N.unknowns()) else [])
+        if ex.current_generation() == 1:
+            return ''
+        names = _stale_vars(exi, g.env, g.closure) + (['the number of parts'] if exi.is_stale(N) else [])
         src = next((x.src for x in reversed(ex.gens) if x.what == 'size'), '?')
         return (f' [{", ".join(f"`{n}`" if " " not in n else n for n in names)} still hold{"s" if len(names) == 1 else ""} a result of the division that `{src}` '
                 'superseded: the part size in force is no longer the divisor it was computed with]') if names else ''
     for kd, i, nxt, base in _part_kinds(ex, N, label):
         exi = ex.child(fn, {}, base, f'{label[:-1]}; {kd}]')
-        act = _run_closure(exi, g.closure, g.env, base, i, f'{q}.f [{case}; {kd}]')
+        try:
+            act = _run_closure(exi, g.closure, g.env, base, i, f'{q}.f [{case}; {kd}]')
+            act2 = _run_closure(exi, g.closure, g.env, base, nxt, f'{q}.f [{case}; part after {kd}]') if nxt is not None else None
+        except Undecided as e:
+            if not forked:
+                raise
+            und.append(str(e))    # a test of the part function is not uniform for this kind of part: the other kinds may still refute
+            continue
         if part is None:
             part = state['part'] = _analyse_copy_part(ctx, m, act)
             _check_loop(ctx, m.path, f'{F}::{SC}._copy_part', part.loop, 'R2')
@@ -472,15 +511,14 @@ def _analyse_run(ctx: Ctx, m: pf.Module, fn: pf.FuncDef, ex: Exec, status: str, 
                                       f'multi_part_create was told {exi.inst(mp.n).at(pt)} parts: create_part rejects it (AssertionError), the part is never written'
                                       + stale(exi, number, mp.n))
         if nxt is None:
-            want, wtext = SIZE, 'the end of the file'
+            want, wtext = csize, 'the end of the file'
         else:
-            act2 = _run_closure(exi, g.closure, g.env, base, nxt, f'{q}.f [{case}; part after {kd}]')
             want, wtext = _subst_formals(part.start, act2, part.int_params), 'the start of the next part'  # type: ignore[arg-type]
         end = start + sz
         # no gap before what follows; nothing read beyond the end of the source (an overlap inside the file rewrites identical bytes: harmless,
         # because source offset = destination offset)
         for op, rhs, rtext, verdict in (('>=', want, wtext, 'those bytes are never copied'),
-                                        ('<=', SIZE, 'the end of the file', 'the part reads beyond the end of the source: UnexpectedEOFError')):
+                                        ('<=', csize, 'the end of the file', 'the part reads beyond the end of the source: UnexpectedEOFError')):
             if exi.decide(op, end, rhs) is True:
                 continue
             pt = refute(exi, op, end, rhs, guards)
@@ -496,8 +534,14 @@ def _analyse_run(ctx: Ctx, m: pf.Module, fn: pf.FuncDef, ex: Exec, status: str, 
     # the first part starts at 0
     ex0 = ex.child(fn, {}, base0, f'{label[:-1]}; first part]')
     if ex0.decide('>=', N, ONE) is not False and part is not None:
-        act0 = _run_closure(ex0, g.closure, g.env, base0, ZERO, f'{q}.f [{case}; first part]')
-        s0 = _subst_formals(part.start, act0, part.int_params)  # type: ignore[arg-type]
+        try:
+            act0 = _run_closure(ex0, g.closure, g.env, base0, ZERO, f'{q}.f [{case}; first part]')
+            s0 = _subst_formals(part.start, act0, part.int_params)  # type: ignore[arg-type]
+        except Undecided as e:
+            if not forked:
+                raise
+            und.append(str(e))
+            s0 = ZERO
         if ex0.decide('==', s0, ZERO) is not True:
             pt = refute(ex0, '==', s0, ZERO)
             if pt is None:
@@ -519,28 +563,28 @@ def _part_kinds(ex: Exec, N: Poly, label: str) -> List[Tuple[str, Poly, Optional
     that i >= 0 holds for all values of the slack unknowns: a constant N is enumerated, N = k + u_ is shifted (u_ = shift + slack)."""
     base = dict(ex.sub)
     n = ex.inst(N)
+    un = ex.cur(V('u_')).unknowns()[0]
+    e_, c_ = ex.cur(V('e_')), ex.cur(V('c_'))
     if n.is_const():
         k = n.const_value()
         if not 0 <= k <= 4:
             raise Undecided(f'{label}: constant number of parts {k} outside the analysed range')
         return [(f'part {j} of {k}', Poly.const(j), Poly.const(j + 1) if j + 1 < k else None, base) for j in range(k)]
-    if any('@' in u or u.startswith(('dq', 'dr')) for u in n.unknowns()):
+    if ex.is_stale(n) or any(u.startswith(('dq', 'dr')) for u in n.unknowns()):
         # the part count is not a quantity of the decomposition in force (a result of a superseded division, an opaque quotient): nothing
         # orders it against q, so the kinds of part are described relative to it and every obligation is left to a realisable refutation
-        c_ = V('c_')
         return [('last part', N - ONE, None, base), ('next-to-last part', N - Poly.const(2), N - ONE, base),
                 ('an earlier part', N - Poly.const(3) - c_, N - Poly.const(2) - c_, base)]
-    if not (set(n.t) <= {(), ('u_',)} and n.t.get(('u_',)) == 1):
+    if not (set(n.t) <= {(), (un,)} and n.t.get((un,)) == 1):
         raise Undecided(f'{label}: number of parts {n!r} is not of the form k + u')
     k0 = n.const_value()
     if not 0 <= k0 <= 3:
         raise Undecided(f'{label}: number of parts {n!r} outside the analysed shapes')
     out = []
-    e_, c_ = V('e_'), V('c_')
     for kd, back, extra in (('last part', 1, ZERO), ('next-to-last part', 2, ZERO), ('an earlier part', 3, c_)):
         sub = dict(base)
         shift = max(0, back - k0)
-        sub['u_'] = Poly.const(shift) + extra + e_
+        sub[un] = Poly.const(shift) + extra + e_
         i = N - Poly.const(back) - extra
         out.append((kd, i, None if back == 1 else i + ONE, sub))
     return out
@@ -1306,18 +1350,20 @@ def _awaited(ctx: Ctx, mods: Sequence[pf.Module]) -> None:
 
 
 def run(ctx: Ctx) -> None:
-    ctx.explanation = ('Abstract execution of the multi-part copy over polynomial normal forms for 6 size cases x 3 kinds of part (identities proved on the normal form, '
+    ctx.explanation = ('Abstract execution of the multi-part copy over polynomial normal forms for 6 size cases x 3 kinds of part, forked / re-divided where a path adjusts the part size or count (identities proved on the normal form, '
                        'refutations by witness), one abstract iteration per order case of each copy loop, predicate abstraction + path enumeration of the 288-row destination-rule table, '
                        'CFG barrier discipline, truth tables of the broad exception handlers, structural checks of the local open modes.')
-    ctx.rule('R1', 'parts cover [0,size) without gap and without reading beyond the end, for every case of size = q*part_size + rem; source offset = destination offset inside a part; part size positive', 8)
+    ctx.rule('R1', 'parts cover [0,size) without gap and without reading beyond the end, for every case of size = q*part_size + rem and every path that adjusts the part size / count (all part quantities from one division by the part size in force); source offset = destination offset inside a part; part size positive', 8)
     ctx.rule('R2', 'copy loops: continue iff bytes remain, 1 <= request <= remaining, pass on what was read, decrease by what was passed on; EOF loop stops exactly at EOF', 15)
-    ctx.rule('R3', 'whole-file / multi-part paths read srcfile and create destfile, part numbers within the announced count; local open modes, seeks, truncation, __aexit__', 27)
+    ctx.rule('R3', 'whole-file / multi-part paths read srcfile and create destfile, every exit has copied or raised a documented error, part numbers within the announced count; local open modes, seeks, truncation, __aexit__', 27)
     ctx.rule('R4', 'destination-rule outcome table (predicate abstraction) equals the documented one on every row; barrier discipline; make_transfer; local statfile/staturl classification', 13)
     ctx.rule('R5', 'broad handlers re-raise when return_exceptions is false; the flag is handed down unchanged and left false by the tool; coroutines are awaited', 50)
     ctx.assume('url_join / url_basename / rstrip / slicing are uninterpreted: R4 compares which term is built, not what string it denotes')
     ctx.assume('outcomes of the file-system queries are table columns: statfile succeeds or raises FileNotFoundError, recursive listfiles succeeds or raises FileNotFoundError/NotADirectoryError, staturl answers file/dir or raises FileNotFoundError; a recursive listing yields no entry whose url ends with /')
     ctx.assume('a blocking read(k>=1) of a regular file returns at least one byte before end of file; write(b) writes all of b')
     ctx.assume('sources are not modified while they are copied')
+    ctx.assume('the part arithmetic is analysed for every positive copy_part_size and BUFFER_SIZE (unknowns) and the literal values of the other integer class constants '
+               '(a cap such as MAX_PARTS); witnesses are inputs of that parametrised program')
     m = pf.load(F)
     ctx.unit('files')
     deferred: List[str] = []
